@@ -36,6 +36,10 @@ type DependencyGraph struct {
 	sortedNodesDirty bool
 	cycleCache       map[NodeKey]bool
 	cycleCacheDirty  bool
+
+	// degreesStale is set by AddProviderDeferred, which postpones the update of
+	// degrees and dependent lists, and cleared by updateDegrees
+	degreesStale bool
 }
 
 // NodeKey uniquely identifies a node in the graph
@@ -243,6 +247,7 @@ func (g *DependencyGraph) AddProviderDeferred(provider Provider) error {
 	// Mark caches as dirty (defer degree updates to DetectCycles)
 	g.sortedNodesDirty = true
 	g.cycleCacheDirty = true
+	g.degreesStale = true
 
 	return nil
 }
@@ -320,6 +325,8 @@ func (g *DependencyGraph) RemoveProvider(serviceType reflect.Type, key any, grou
 
 // updateDegrees recalculates in/out degrees for all nodes
 func (g *DependencyGraph) updateDegrees() {
+	g.degreesStale = false
+
 	// Reset all degrees and dependent lists
 	for _, node := range g.nodes {
 		node.InDegree = 0
@@ -359,6 +366,12 @@ func (g *DependencyGraph) TopologicalSort() ([]*Node, error) {
 
 	g.mu.Lock()
 	defer g.mu.Unlock()
+
+	// The sort walks the dependent lists: bring them up to date if a deferred
+	// add postponed that, or an order computed from the old lists is cached
+	if g.degreesStale {
+		g.updateDegrees()
+	}
 
 	// Perform Kahn's algorithm for topological sort
 	result := make([]*Node, 0, len(g.nodes))
